@@ -12,6 +12,7 @@ META = {
 }
 MODULES = ["contracts.lemmas", "contracts.local"]
 LEVEL = "proof"
+DEEP_FALLBACK = True
 EXPLANATION = "Every obligation generated from dask/local.py's scheduler functions is discharged; see trusted_base for the assumed external contracts."
 TRUSTED = [
     "VC generator /verif/vf", "z3 5.1 / z3 4.8.12 / cvc5 1.0.3",
